@@ -403,6 +403,10 @@ def run(prop, tier, replay=None):
                 "(tolerance class, global rotation, pattern motion, permutation, jitter, RNG seeds, hint triples incl. "
                 "index 0, supercells); a case = one distinct observed (crystal, answer) event; non-trivial = the crystal "
                 "contains at least one occurrence or decoy" % cfg["variants"])
+    if replay and "recorded_find_test" in json.load(open(replay))["case"]:
+        from . import recfind
+        recfind.run(out, prop, tier, sd, only=json.load(open(replay))["case"]["recorded_find_test"])
+        return out.finish()
     if replay:
         rp = json.load(open(replay))["case"]
         results = [(0, rp["variant_index"], rp["variant"], run_find(rp["crystal"], rp["variant"]))]
@@ -452,6 +456,10 @@ def run(prop, tier, replay=None):
     if prop == "C03" and not replay:
         from . import realfiles
         realfiles.run_c03(out, tier, sd)
+    if not replay:
+        # the searches the repository's own tests make (floating-point molecules and MOF fragments), judged at relation level
+        from . import recfind
+        recfind.run(out, prop, tier, sd)
     out.assumptions = ["harness/findops.py rendering and projection (numpy): positions un-rendered to integers, lattice "
                        "vectors and the rotation residual computed in floating point",
                        "tolerance margins: atol/scale <= 1/32 lattice unit, jitter <= atol/50 (TLC ASSUMEs in MC_Find)"]
